@@ -9,6 +9,7 @@ import (
 	"io"
 	"os"
 	"path/filepath"
+	"sigs.k8s.io/yaml"
 	"sort"
 	"strings"
 	"time"
@@ -226,8 +227,19 @@ func corrChartIO(seed uint64, n int, tier string, out string, replay string) {
 			o.v1lock, stream = true, "v1lock"
 		case i%13 == 9:
 			o.valuesNoRaw, stream = true, "values-without-raw"
+		case i%13 == 11:
+			stream = "v1-lock-file"
 		}
 		c := genIOChart(r, 0, Pick(r, []string{"mychart", "c", "a-b"}), o)
+		if stream == "v1-lock-file" {
+			// an apiVersion v1 chart as the loader builds it from a directory that holds requirements.lock:
+			// the lock is parsed and the file itself stays among the chart's files (that is how Save writes it back)
+			c.Metadata.APIVersion = "v1"
+			c.Metadata.Dependencies = nil // a v1 chart lists its dependencies in requirements.yaml (not generated)
+			c.Lock = &chart.Lock{Generated: time.Unix(1700000000, 0).UTC(), Digest: "sha256:abc", Dependencies: []*chart.Dependency{{Name: "d", Version: "1.0.0", Repository: "https://example.com"}}}
+			lb, _ := yaml.Marshal(c.Lock)
+			c.Files = append(c.Files, &chart.File{Name: "requirements.lock", Data: lb})
+		}
 		chartIOCase(m, rep, dir, c, stream, seed, i)
 	}
 	// invalid name / version are not packaged
